@@ -8,7 +8,7 @@ expression types are not part of the form.
 """
 import re
 
-DEBUG_ASSERT = ("bang:debug_assert", "bang:debug_assert_eq", "bang:debug_assert_ne")
+DEBUG_ASSERT = ("debug_assert", "debug_assert_eq", "debug_assert_ne")
 
 
 class N:
@@ -138,8 +138,7 @@ class Normalizer:
     # -- expressions
 
     def is_debug_assert(self, node):
-        mb = self.c.mb(node)
-        return any(m in DEBUG_ASSERT for m in mb)
+        return any(m in DEBUG_ASSERT for m in self.c.macros(node))
 
     def stmts(self, b):
         out = []
